@@ -312,6 +312,34 @@ func (c *Ctx) gatedContainerRules(prefix string) {
 			unit[f] = true
 		}
 	}
+	// a removal unit removes on every path through it: a helper (or deferred closure) that
+	// keeps the group under some condition — "the Broker could not take it, try again at the
+	// next sweep" — hands the same events to composition a second time.
+	for _, f := range p.FuncsIn(PkgGated) {
+		if !unit[f] {
+			continue
+		}
+		fi := info[f]
+		okAll := true
+		var where ssa.Instruction
+		for _, ret := range Returns(f) {
+			for _, rm := range append(append([]ssa.CallInstruction{}, fi.dels...), fi.rems...) {
+				if _, isD := rm.(*ssa.Defer); isD {
+					if !dominatesInstr(rm, ret) {
+						okAll, where = false, rm
+					}
+				} else if !dominatesInstr(rm, ret) {
+					okAll, where = false, rm
+				}
+			}
+		}
+		pos := p.Pos(f.Pos())
+		if where != nil {
+			pos = p.InstrPos(where)
+		}
+		r.Check(okAll, prefix+".cleanup", p.ShortFn(f)+":removal-unconditional", pos, "the removal helper removes the group on every path through it",
+			"the helper that removes a composed group from the gate does so only on some of its paths: a group that stays gated after composition was attempted is composed and sent again by the next sweep or FlushAll (handed to composition twice)")
+	}
 	nRem := 0
 	for _, f := range p.FuncsIn(PkgGated) {
 		fi := info[f]
